@@ -399,6 +399,29 @@ def make_exec(rel_path: str, unit: str, *, globals_extra=None, contracts=None, m
                     if nm not in g and isinstance(getattr(real, nm, None), type):
                         g[nm] = TypeRef(nm)
     m = {"__exc_subclass__": exc_subclass}
+
+    def import_hook(ex, name, _real=real):
+        """value of an imported module-level name, mapped into the model: a Dimension constant -> its exponent vector, a number -> a
+        Fraction; anything else stays unresolved"""
+        obj = getattr(_real, name, None) if _real is not None else None
+        if obj is None:
+            return None
+        from sympy.physics.units import Dimension as _Dim
+        import sympy as _sp
+        if isinstance(obj, _Dim):
+            from .refimpl import dim_vec
+            vec = dim_vec(obj)
+            order = ["mass", "length", "time", "current", "temperature", "amount_of_substance", "luminous_intensity", "angle"]
+            if set(vec) - set(order):
+                return None
+            return M.d_mk([Fraction(str(vec.get(k, 0))) for k in order] + [Fraction(0)], False)
+        if isinstance(obj, (int, float)) and not isinstance(obj, bool):
+            return Fraction(repr(obj)) if isinstance(obj, float) else obj
+        if isinstance(obj, (_sp.Integer, _sp.Rational)):
+            return Fraction(int(obj.p), int(obj.q))
+        return None
+    m["__import__"] = import_hook
+    m["__structural_eq_sorts__"] = (M.Dim,)
     m.update(models or {})
     return Exec(source_file=path, globals_=g, contracts=contracts or {}, models=m, loop_specs=loop_specs or {},
                 isinstance_model=isinstance_model, attr_model=attr_model, unit=unit)
